@@ -1,8 +1,12 @@
 """C05 — translate_rotate is the exact rigid motion on every object.
 oracle: independent rotation (math.cos / math.sin) of a structural snapshot of the raw stored data: every stored
-        point p -> R(a)(p + t), every orientation th -> th + a modulo 2pi (intervals: both ends, same shift),
-        everything else bit-identical; no exception for |a| <= 2pi; undoing the motion restores the original.
-corr:   Model/Transform.v, Model/Shapes.v, Model/Scene.v evaluated by vm_compute on the same cases (Corr/C05.v)."""
+        point p -> R(a)(p + t), every orientation th -> th + a modulo 2pi inside [-2pi, 2pi] (orientation intervals:
+        again an AngleInterval, both ends shifted by the same amount, both inside [-2pi, 2pi]), everything else
+        bit-identical; no exception for |a| <= 2pi; undoing the motion restores the original; a second motion on the
+        result does not raise and the result is the combined motion of the original; a state moved together with a
+        goal region reaches it iff it did before.
+corr:   Model/Transform.v, Model/Shapes.v, Model/Scene.v evaluated by vm_compute on the same cases (Corr/C05.v),
+        for one motion ([check1]) and for two motions in a row ([check2], the model bound twice)."""
 import copy
 import math
 import random
@@ -18,58 +22,262 @@ from props import c05_lib as L
 import commonroad
 from commonroad.common.util import AngleInterval, Interval
 from commonroad.geometry import transform as cr_transform
-from commonroad.geometry.shape import Circle, Polygon, Rectangle, ShapeGroup
-from commonroad.scenario.state import CustomState, InitialState, KSState, PMState, STState
+from commonroad.geometry.shape import Circle, Polygon, Rectangle, Shape, ShapeGroup
+from commonroad.scenario.state import (CustomState, ExtendedPMState, InitialState, KSState, KSTState, MBState, PMState,
+                                       STDState, STState)
 
 TWO_PI = commonroad.TWO_PI
+PI = math.pi
 TOL = 1e-9
 
-RULE = ("cases = (component kind, sub-seed of the object generator, translation, angle) from one seeded PRNG; kinds: raw "
-        "vertex arrays (translate_rotate / rotate_translate), shapes (rectangle, circle, polygon, nested groups), states "
-        "(all state classes, exact / region positions, exact / interval orientations incl. values at +-2pi, goal states), "
-        "lanelets with stop lines, traffic signs / lights, obstacles of all roles (static, dynamic with trajectory / "
-        "set-based / no prediction, phantom, environment), whole scenarios (lanelet network + every obstacle role), "
-        "planning-problem sets; angles dense near 0, at +-0.05 (+-1 ulp), multiples of pi/2, +-2pi (+-1 ulp), ints, numpy "
-        "scalars, a few outside [-2pi,2pi]; translations 0, grid, 1e-7..1e4. distinct = distinct case dicts; "
-        "non-trivial = angle != 0 or translation != 0")
+RULE = ("cases = (component kind, sub-seed of the object generator, translation, angle[, second translation, second "
+        "angle]) from one seeded PRNG; kinds: raw vertex arrays (translate_rotate / rotate_translate), shapes (rectangle, "
+        "circle, polygon, nested groups), states (KS, KST, ST, STD, MB, PM, ExtendedPM, Initial, Custom; exact / region "
+        "positions; exact / interval orientations incl. ends at +-2pi and lengths 0 .. 6.28; every other attribute exact, "
+        "Interval or AngleInterval; time step exact or Interval; goal states), lanelets with stop lines, traffic signs / "
+        "lights, obstacles of all roles (static, dynamic with trajectory / set-based / no prediction, phantom, "
+        "environment), whole scenarios (lanelet network + every obstacle role), planning-problem sets (exact / uncertain "
+        "initial states, goal states with regions incl. groups, orientation / velocity / time intervals) together with "
+        "probe states inside / just outside / away from each goal; angles dense near 0, at +-0.05 (+-1 ulp), multiples of "
+        "pi/2, +-2pi (+-1 ulp), ints, numpy scalars, a few outside [-2pi,2pi]; translations 0, grid, 1e-7..1e4; 40% of "
+        "the cases carry a second motion from the same streams (a third of them the exact inverse rotation, the "
+        "same motion again or +-2pi). distinct = distinct case dicts; non-trivial = angle != 0 or translation != 0")
 ASSUME = ["cos / sin are oracle inputs: the model takes the doubles math.cos(a), math.sin(a); every case checks "
           "|c*c + s*s - 1| <= 4 ulp (count in coverage.trig_hypothesis_checked)",
           "float + - * are rounded (model exact): coordinates compared with tolerance 1e-9*(max(1,|x|)+scale), "
-          "orientations modulo 2pi with the same tolerance",
+          "orientations modulo 2pi with the same tolerance; ends of orientation intervals additionally inside "
+          "[-2pi, 2pi] (+ tolerance)",
           "Polygon re-orients its vertex ring through shapely; a rotation keeps the ring order of a simple polygon "
           "(compared in order); objects holding a self-intersecting ring are compared as vertex cycles by the oracle and "
           "left out of the correspondence (coverage.excluded_nonsimple_polygon)",
           "point-mass states: the orientation is the property atan2(velocity_y, velocity); 'th -> th + a' is judged as "
-          "'(velocity, velocity_y) -> R(a)(velocity, velocity_y)'; DynamicObstacle.history is outside the statement"]
+          "'(velocity, velocity_y) -> R(a)(velocity, velocity_y)'; DynamicObstacle.history is outside the statement",
+          "GoalRegion.is_reached of a probe moved together with the goal is demanded only for robust decisions: the "
+          "probe is farther than 1e-5 from every region outline / orientation-interval end (as an angle) / velocity-"
+          "interval end of the goal, and the verdict before the motion is the same for the probe displaced by +-1e-6 "
+          "in x, y, orientation and velocity (others counted in coverage.is_reached_near_boundary_excluded)",
+          "two motions (t1,a1), (t2,a2) with |a1|, |a2| <= 2pi are judged against the single map p -> R(a1+a2)(p + t1 + "
+          "R(-a1) t2), th -> th + a1 + a2 (a1 + a2 may leave [-2pi, 2pi]: the map is defined for every angle)"]
 
-KINDS = [("pts", 14), ("rottr", 5), ("shape", 20), ("state", 20), ("lanelet", 8), ("post", 4), ("obstacle", 14),
-         ("scenario", 10), ("ppset", 5)]
+KINDS = [("pts", 12), ("rottr", 5), ("shape", 18), ("state", 22), ("lanelet", 7), ("post", 4), ("obstacle", 14),
+         ("scenario", 10), ("ppset", 8)]
 
 
 # ------------------------------------------------------------------------------------ generators
+def _edge_orientation_interval(rng):
+    """AngleIntervals of every length (0 .. almost 2pi) anywhere in [-2pi, 2pi], ends at +-2pi included"""
+    ln = rng.choice([0.0, 1e-6, 0.1, 0.5, 1.0, 3.0, 5.0, 6.0, 6.28])
+    k = rng.random()
+    if k < 0.15:
+        lo = -TWO_PI
+    elif k < 0.3:
+        lo = TWO_PI - ln
+    else:
+        lo = rng.uniform(-TWO_PI, TWO_PI - ln)
+    return AngleInterval(lo, min(lo + ln, TWO_PI))
+
+
+def _attr_value(rng, name):
+    """exact, Interval or AngleInterval value of a state attribute that a rigid motion must leave alone"""
+    x = scen.rnd(rng, -3, 3)
+    k = rng.random()
+    if k < 0.3:
+        return Interval(x, x + rng.choice([0.0, 0.5, 2.0]))
+    if k < 0.45 and "angle" in name:
+        return AngleInterval(x, x + rng.choice([0.0, 0.2, 3.0]))
+    return x if k < 0.9 else int(round(x))
+
+
 def _edge_state(rng):
-    """states whose orientation sits at the ends of the valid range / long intervals / ints"""
+    """states whose orientation sits at the ends of the valid range / long intervals / ints; every state class with a
+    stored orientation; the remaining attributes exact or interval-valued"""
+    import dataclasses
     t = rng.randint(0, 5)
     pos = np.array([scen.rnd(rng, -30, 30), scen.rnd(rng, -30, 30)])
     k = rng.random()
     if k < 0.35:
         o = rng.choice([TWO_PI, -TWO_PI, 6.0, -6.0, 0.0, 1, -3, math.nextafter(TWO_PI, 0), 3.0, -3.0])
-    elif k < 0.75:
-        ln = rng.choice([0.0, 1e-6, 0.5, 3.0, 5.0, 6.0, 6.28])
-        lo = rng.uniform(-TWO_PI, TWO_PI - ln)
-        o = AngleInterval(lo, lo + ln)
+    elif k < 0.8:
+        o = _edge_orientation_interval(rng)
     else:
         o = None
-    cls = rng.choice([KSState, CustomState, InitialState])
-    kw = dict(time_step=t, position=pos if rng.random() < 0.8 else scen.rand_shape(rng, ("rect", "circ", "poly", "group"),
-                                                                                  False))
+    cls = rng.choice([KSState, CustomState, InitialState, KSTState, STState, STDState, MBState, ExtendedPMState])
+    kw = dict(time_step=t if rng.random() < 0.8 else Interval(t, t + rng.randint(0, 9)),
+              position=pos if rng.random() < 0.75 else scen.rand_shape(rng, ("rect", "circ", "poly", "group"), False))
     if o is not None:
         kw["orientation"] = o
     if cls is CustomState and rng.random() < 0.3:
         kw.pop("position")
     if cls is CustomState:
-        kw["velocity"] = scen.rnd(rng, 0, 20)
+        for name in rng.sample(["velocity", "acceleration", "yaw_rate", "slip_angle", "steering_angle", "hitch_angle",
+                                "jerk", "velocity_y", "curvature"], rng.randint(1, 4)):
+            kw[name] = _attr_value(rng, name)
+    else:
+        names = [f.name for f in dataclasses.fields(cls) if f.name not in ("time_step", "position", "orientation")]
+        for name in names:
+            if rng.random() < (0.8 if len(names) < 8 else 0.3):
+                kw[name] = _attr_value(rng, name)
     return cls(**kw)
+
+
+def _edge_goal_state(rng):
+    """goal states: region (group included), orientation interval of any length / anywhere, velocity / time intervals"""
+    t0 = rng.randint(0, 5)
+    kw = {"time_step": Interval(t0, t0 + rng.randint(0, 30))}
+    if rng.random() < 0.8:
+        kw["position"] = scen.rand_shape(rng, ("rect", "circ", "poly", "group"), False)
+    if rng.random() < 0.75:
+        kw["orientation"] = _edge_orientation_interval(rng)
+    if rng.random() < 0.5:
+        v = scen.rnd(rng, 0, 10)
+        kw["velocity"] = Interval(v, v + rng.choice([0.0, 0.5, 5.0]))
+    return CustomState(**kw)
+
+
+def _ppset(rng):
+    from commonroad.planning.goal import GoalRegion
+    from commonroad.planning.planning_problem import PlanningProblem, PlanningProblemSet
+    if rng.random() < 0.4:
+        return scen.rand_planning_problem_set(rng, n=rng.randint(1, 3))
+    pps = []
+    for i in range(rng.randint(1, 3)):
+        goals = [_edge_goal_state(rng) if rng.random() < 0.7 else scen.rand_goal_state(rng)
+                 for _ in range(rng.randint(1, 3))]
+        init = scen.rand_state(rng, InitialState, 0, uncertain=rng.random() < 0.3)
+        pps.append(PlanningProblem(900 + i, init, GoalRegion(goals)))
+    return PlanningProblemSet(pps)
+
+
+# ---- probe states for GoalRegion.is_reached (moved together with the goal)
+def _inside_point(rng, sh):
+    if isinstance(sh, Rectangle):
+        u, v = rng.uniform(-0.4, 0.4) * sh.length, rng.uniform(-0.4, 0.4) * sh.width
+        c, s_ = math.cos(sh.orientation), math.sin(sh.orientation)
+        return np.array([sh.center[0] + c * u - s_ * v, sh.center[1] + s_ * u + c * v])
+    if isinstance(sh, Circle):
+        r, th = rng.uniform(0, 0.8) * sh.radius, rng.uniform(-PI, PI)
+        return np.array([sh.center[0] + r * math.cos(th), sh.center[1] + r * math.sin(th)])
+    if isinstance(sh, Polygon):
+        q = sh.shapely_object.representative_point()
+        return np.array([q.x, q.y])
+    if isinstance(sh, ShapeGroup) and sh.shapes:
+        return _inside_point(rng, rng.choice(sh.shapes))
+    return np.array([scen.rnd(rng, -30, 30), scen.rnd(rng, -30, 30)])
+
+
+def _probe(rng, g):
+    """a state with exact values aimed at goal state g: inside in every attribute / outside in one / anywhere"""
+    mode = rng.choice(["hit", "hit", "hit", "miss", "miss", "random"])
+    miss = rng.choice(["time", "position", "orientation", "velocity"]) if mode == "miss" else None
+    ts = g.time_step
+    t = rng.randint(int(ts.start), int(ts.end)) if isinstance(ts, Interval) else 0
+    if miss == "time" or mode == "random":
+        t = int(ts.end) + rng.randint(1, 3) if isinstance(ts, Interval) and rng.random() < 0.7 else rng.randint(0, 40)
+    sh = getattr(g, "position", None)
+    pos = _inside_point(rng, sh) if isinstance(sh, Shape) else np.array([scen.rnd(rng, -30, 30), scen.rnd(rng, -30, 30)])
+    if miss == "position" or mode == "random":
+        pos = pos + np.array([rng.choice([-1, 1]) * rng.uniform(0.5, 40), rng.uniform(-40, 40)])
+    oi = getattr(g, "orientation", None)
+    o = oi.start + rng.random() * (oi.end - oi.start) if isinstance(oi, Interval) else rng.uniform(-PI, PI)
+    if miss == "orientation" or mode == "random":
+        o = (oi.end + rng.uniform(0.05, 1.0)) if isinstance(oi, Interval) and rng.random() < 0.7 else rng.uniform(-6, 6)
+    o = math.remainder(o, TWO_PI) if (abs(o) > TWO_PI or rng.random() < 0.3) else o
+    vi = getattr(g, "velocity", None)
+    v = vi.start + rng.random() * (vi.end - vi.start) if isinstance(vi, Interval) else scen.rnd(rng, 0, 15)
+    if miss == "velocity" or mode == "random":
+        v = (vi.end + rng.uniform(0.1, 5)) if isinstance(vi, Interval) else scen.rnd(rng, 0, 15)
+    cls = rng.choice([KSState, CustomState, InitialState, PMState, STState])
+    if cls is PMState:
+        v = max(v, 0.5)  # a point mass at rest has no heading
+        return PMState(time_step=t, position=pos, velocity=v * math.cos(o), velocity_y=v * math.sin(o))
+    kw = dict(time_step=t, position=pos, orientation=o, velocity=v)
+    if cls is InitialState:
+        kw.update(acceleration=0.0, yaw_rate=0.0, slip_angle=0.0)
+    elif cls is not CustomState:
+        kw.update(steering_angle=0.0)
+    return cls(**kw)
+
+
+def make_probes(rng, pps):
+    """[(planning problem id, probe state)] for a planning-problem set"""
+    out = []
+    for pid, pp in pps.planning_problem_dict.items():
+        for g in pp.goal.state_list:
+            for _ in range(rng.randint(1, 2)):
+                out.append((pid, _probe(rng, g)))
+    return out
+
+
+EPS_PROBE = 1e-6
+
+
+def _displaced(p):
+    """the probe displaced by +-EPS_PROBE in x, y, heading and speed"""
+    out = []
+    for d in ((EPS_PROBE, 0.0), (-EPS_PROBE, 0.0), (0.0, EPS_PROBE), (0.0, -EPS_PROBE)):
+        q = copy.copy(p)
+        q.position = p.position + np.array(d)
+        out.append(q)
+    for e in (EPS_PROBE, -EPS_PROBE):
+        q, r = copy.copy(p), copy.copy(p)
+        if L.derived_orientation(p):
+            c, s_ = math.cos(e), math.sin(e)
+            q.velocity, q.velocity_y = c * p.velocity - s_ * p.velocity_y, s_ * p.velocity + c * p.velocity_y
+            r.velocity, r.velocity_y = p.velocity * (1 + e) + e, p.velocity_y * (1 + e)
+        else:
+            q.orientation = p.orientation + e
+            r.velocity = p.velocity + e
+        out += [q, r]
+    return out
+
+
+def _reached(goal, st):
+    try:
+        return bool(goal.is_reached(st))
+    except Exception as e:  # noqa  (judged: must not start to raise after a motion)
+        return "raises " + type(e).__name__
+
+
+def _boundary_distance(sh, pt):
+    """distance of a point to the boundary of a shape (independent of contains_point: analytic / shapely)"""
+    if isinstance(sh, Circle):
+        return abs(math.hypot(pt[0] - sh.center[0], pt[1] - sh.center[1]) - sh.radius)
+    if isinstance(sh, ShapeGroup):
+        return min([_boundary_distance(x, pt) for x in sh.shapes] + [float("inf")])
+    import shapely.geometry
+    return sh.shapely_object.exterior.distance(shapely.geometry.Point(pt[0], pt[1]))
+
+
+def _clear_of_boundaries(goal, st):
+    """the probe is farther than EPS_PROBE from every boundary of every goal state: region outline, ends of the
+    orientation interval (as angles), ends of the velocity interval (thin or empty-interior intervals included)"""
+    if L.derived_orientation(st):
+        o, v = math.atan2(st.velocity_y, st.velocity), math.hypot(st.velocity, st.velocity_y)
+    else:
+        o, v = st.orientation, st.velocity
+    for g in goal.state_list:
+        sh, oi, vi = getattr(g, "position", None), getattr(g, "orientation", None), getattr(g, "velocity", None)
+        if isinstance(sh, Shape) and _boundary_distance(sh, st.position) <= 10 * EPS_PROBE:
+            return False
+        if isinstance(oi, Interval) and any(abs(math.remainder(o - e, TWO_PI)) <= 10 * EPS_PROBE for e in (oi.start, oi.end)):
+            return False
+        if isinstance(vi, Interval) and any(abs(v - e) <= 10 * EPS_PROBE * (1 + abs(v)) for e in (vi.start, vi.end)):
+            return False
+    return True
+
+
+def probe_verdicts(pps, probes, with_margin):
+    """[(verdict, robust)] of GoalRegion.is_reached for every probe"""
+    out = []
+    for pid, st in probes:
+        goal = pps.planning_problem_dict[pid].goal
+        v = _reached(goal, st)
+        robust = True
+        if with_margin:
+            robust = (isinstance(v, bool) and _clear_of_boundaries(goal, st)
+                      and all(_reached(goal, q) == v for q in _displaced(st)))
+        out.append((v, robust))
+    return out
 
 
 def _nested_group(rng):
@@ -125,7 +333,7 @@ def build(case):
             sc.add_objects(scen.rand_obstacle(rng, 500 + i, role=r, uncertain=unc))
         return sc
     if k == "ppset":
-        return scen.rand_planning_problem_set(rng, n=rng.randint(1, 3))
+        return _ppset(rng)
     raise ValueError(k)
 
 
@@ -143,6 +351,8 @@ def gen(rng, n):
             c["a"], c["at"] = float(c["a"]), "np.float64"
         else:
             c["at"] = "int" if isinstance(c["a"], int) else "float"
+        if rng.random() < 0.4:
+            c["m2"] = second_motion(rng, c)
         if k in ("pts", "rottr"):
             m = rng.randint(1, 6)
             sc = rng.choice([1.0, 1.0, 100.0, 1e4, 1e-3])
@@ -159,6 +369,28 @@ def gen(rng, n):
     return cases
 
 
+def _typed_angle(a):
+    if isinstance(a, np.floating):
+        return float(a), "np.float64"
+    return a, ("int" if isinstance(a, int) else "float")
+
+
+def second_motion(rng, c):
+    """a motion applied to the result of the first: independent, or the inverse rotation / the same again / a full turn"""
+    k = rng.random()
+    a1 = c["a"]
+    if k < 0.15:
+        t2, a2 = [0.0, 0.0], -a1
+    elif k < 0.25:
+        t2, a2 = list(c["t"]), a1
+    elif k < 0.33:
+        t2, a2 = [0.0, 0.0], rng.choice([TWO_PI, -TWO_PI])
+    else:
+        t2, a2 = L.translation_stream(rng), L.angle_stream(rng, allow_invalid=True)
+    a2, at2 = _typed_angle(a2)
+    return {"t": t2, "a": a2, "at": at2}
+
+
 def nontrivial(c):
     return float(c["a"]) != 0.0 or any(float(x) != 0.0 for x in c["t"])
 
@@ -171,6 +403,18 @@ def angle_of(c):
     a = c["a"]
     t = c.get("at", "float")
     return int(a) if t == "int" else np.float64(a) if t == "np.float64" else float(a)
+
+
+def combined_motion(case):
+    """(t, a) of the single map equal to motion 1 followed by motion 2 (for rotate_translate: R(a)p + t)"""
+    m2 = case["m2"]
+    a1, a2 = float(case["a"]), float(m2["a"])
+    t1, t2 = case["t"], m2["t"]
+    if case["kind"] == "rottr":  # R2(R1 p + t1) + t2
+        c, s_ = math.cos(a2), math.sin(a2)
+        return [c * t1[0] - s_ * t1[1] + t2[0], s_ * t1[0] + c * t1[1] + t2[1]], a1 + a2
+    c, s_ = math.cos(-a1), math.sin(-a1)  # R2(R1(p + t1) + t2) = R12(p + t1 + R1^-1 t2)
+    return [t1[0] + c * t2[0] - s_ * t2[1], t1[1] + s_ * t2[0] + c * t2[1]], a1 + a2
 
 
 # ------------------------------------------------------------------------------------ implementation
@@ -195,9 +439,34 @@ def apply(case, obj, t, a):
     return obj
 
 
+def _apply_probes(probes, t, a):
+    """the probes moved by the same motion; a probe whose translate_rotate raises is kept as the exception name"""
+    out = []
+    for pid, st in probes:
+        if isinstance(st, str):
+            out.append((pid, st))
+            continue
+        try:
+            out.append((pid, st.translate_rotate(t, a)))
+        except Exception as e:  # noqa  (judged)
+            out.append((pid, "raises " + type(e).__name__))
+    return out
+
+
+def _verdicts_after(pps, probes):
+    return [(st, False) if isinstance(st, str) else (_reached(pps.planning_problem_dict[pid].goal, st), False)
+            for pid, st in probes]
+
+
+def _observe(k, res):
+    if k in ("pts", "rottr"):
+        return [v for p in res for v in p], ["nd"] + np.asarray(res).tolist()
+    return F_OF[k](res), scen.snapshot(res, SKIP)
+
+
 def evaluate(case):
-    """build, snapshot, transform, snapshot.  Returns a dict with the Coq term of the input, the flat
-    observation (or exception class), and both snapshots"""
+    """build, snapshot, transform, snapshot (, transform the result by the second motion, snapshot).  Returns a dict
+    with the Coq term of the input, the flat observations (or exception classes), and the snapshots"""
     obj = build(case)
     k = case["kind"]
     t = np.array(case["t"], dtype=float)
@@ -212,19 +481,32 @@ def evaluate(case):
         ev["before_flat"] = F_OF[k](obj)
         ev["snap_before"] = scen.snapshot(obj, SKIP)
         ev["nonsimple"] = has_nonsimple_polygon(ev["snap_before"])
+    probes = None
+    if k == "ppset":
+        probes = make_probes(random.Random(case["sub"] ^ 0x2545F491), obj)
+        ev["reach_before"] = probe_verdicts(obj, probes, with_margin=True)
     try:
         res = apply(case, obj, t, a)
     except Exception as e:  # noqa  (expected for |a| > 2pi; judged by the oracle otherwise)
         ev["exc"] = type(e).__name__
         ev["exc_msg"] = str(e)[:160]
         return ev
-    if k in ("pts", "rottr"):
-        ev["after_flat"] = [v for p in res for v in p]
-        ev["snap_after"] = ["nd"] + np.asarray(res).tolist()
-    else:
-        ev["after_flat"] = F_OF[k](res)
-        ev["snap_after"] = scen.snapshot(res, SKIP)
+    ev["after_flat"], ev["snap_after"] = _observe(k, res)
     ev["result"] = res
+    if probes is not None and abs(float(a)) <= TWO_PI:
+        probes = _apply_probes(probes, t, a)
+        ev["reach_after"] = _verdicts_after(res, probes)
+    if "m2" in case:
+        t2, a2 = np.array(case["m2"]["t"], dtype=float), angle_of(case["m2"])
+        try:
+            res2 = apply(case, res, t2, a2)
+        except Exception as e:  # noqa  (expected for |a2| > 2pi; judged otherwise)
+            ev["exc2"] = type(e).__name__
+            ev["exc2_msg"] = str(e).strip()[:160]
+            return ev
+        ev["after2_flat"], ev["snap_after2"] = _observe(k, res2)
+        if probes is not None and "reach_after" in ev and abs(float(a2)) <= TWO_PI:
+            ev["reach_after2"] = _verdicts_after(res2, _apply_probes(probes, t2, a2))
     return ev
 
 
@@ -263,7 +545,7 @@ def _chk_pt(b, a_, t, ang, where, out, rt=False):
     e = _rot(b[1:], t, ang, rt)
     scale = max(1.0, abs(b[1]), abs(b[2]), abs(t[0]), abs(t[1]))
     if max(abs(e[0] - a_[1]), abs(e[1] - a_[2])) > TOL * scale:
-        out.append((where, f"point {b[1:]} -> {a_[1:]}, expected R(p+t) = [{e[0]!r}, {e[1]!r}]"))
+        out.append((where, f"point {b[1:]} -> {a_[1:]}, expected R(p+t) = [{float(e[0])!r}, {float(e[1])!r}]"))
 
 
 def _chk_angle(b, a_, ang, where, out):
@@ -342,12 +624,20 @@ def walk(b, a_, t, ang, out, path="", cls=None):
                     out.append((f"{c}.{k}", "shape in the obstacle's own frame changed"))
             elif is_state(c) and k == "orientation" and isinstance(bv, dict) and bv.get("__class__") == "AngleInterval":
                 if not (isinstance(av, dict) and av.get("__class__") == "AngleInterval"):
-                    out.append((f"{c}.orientation", "orientation interval replaced"))
+                    got = av.get("__class__") if isinstance(av, dict) else type(av).__name__
+                    out.append((f"{c}.orientation(interval)",
+                                f"orientation AngleInterval [{bv['start']},{bv['end']}] became a {got}: {str(av)[:80]}"))
+                    continue
+                if not all(isinstance(av.get(e), (int, float)) and not isinstance(av.get(e), bool) for e in ("start", "end")):
+                    out.append((f"{c}.orientation(interval)", f"orientation interval ends replaced: {str(av)[:60]}"))
                     continue
                 _chk_angle(bv["start"], av["start"], ang, f"{c}.orientation(interval)", out)
                 if abs((av["end"] - av["start"]) - (bv["end"] - bv["start"])) > TOL * 10:
                     out.append((f"{c}.orientation(interval)", f"orientation interval [{bv['start']},{bv['end']}] -> "
                                                               f"[{av['start']},{av['end']}]: length changed"))
+                elif abs(av["end"]) > TWO_PI + TOL:
+                    out.append((f"{c}.orientation(interval)", f"orientation interval [{bv['start']},{bv['end']}] -> "
+                                                              f"[{av['start']},{av['end']}]: leaves [-2pi, 2pi]"))
             elif (c, k) in POINT_FIELDS or (is_state(c) and k == "position" and isinstance(bv, list)):
                 if bv is not None:
                     _chk_pt(bv, av, t, ang, f"{c}.{k}", out)
@@ -390,6 +680,32 @@ def walk(b, a_, t, ang, out, path="", cls=None):
                                                         f"{str(b)[:40]} -> {str(a_)[:40]}"))
 
 
+def _judge_points(case, ev, before, after, t, a, out):
+    k = case["kind"]
+    if k in ("pts", "rottr"):
+        if len(before) != len(after):
+            out.append(("array", "vertex count changed"))
+        else:
+            for p, q in zip(before[1:], after[1:]):
+                _chk_pt(["nd"] + p, ["nd"] + q, t, a, "transform." + ("translate_rotate" if k == "pts" else
+                                                                      "rotate_translate"), out, rt=(k == "rottr"))
+    else:
+        walk(before, after, t, a, out)
+
+
+def _judge_reach(case, ev, key, what_motion):
+    """a probe state moved together with the goal region reaches it iff it did before (robust decisions only)"""
+    for i, ((v0, robust), (v1, _)) in enumerate(zip(ev["reach_before"], ev[key])):
+        if not robust:
+            continue
+        if v1 != v0:
+            kind_ = "raises" if isinstance(v1, str) else "flips"
+            return (f"ppset:GoalRegion.is_reached of a state moved with the goal {kind_}",
+                    f"ppset sub-seed {case['sub']} {what_motion}: probe state #{i} (make_probes) had is_reached = {v0} "
+                    f"before; after moving the planning-problem set and the state together: {v1}")
+    return None
+
+
 def judge(case, ev):
     """the property statement on one evaluated case -> None | (signature, what)"""
     a = float(case["a"])
@@ -401,19 +717,33 @@ def judge(case, ev):
         return (f"{k}:raises {ev['exc']}:{_shape_of(case)}",
                 f"translate_rotate of a {k} ({_shape_of(case)}) with a valid angle {a!r} raises {ev['exc']}: {ev['exc_msg']}")
     out = []
-    if k in ("pts", "rottr"):
-        b, r = ev["snap_before"], ev["snap_after"]
-        if len(b) != len(r):
-            out.append(("array", "vertex count changed"))
-        else:
-            for p, q in zip(b[1:], r[1:]):
-                _chk_pt(["nd"] + p, ["nd"] + q, ev["t"], a, "transform." + ("translate_rotate" if k == "pts" else
-                                                                            "rotate_translate"), out, rt=(k == "rottr"))
-    else:
-        walk(ev["snap_before"], ev["snap_after"], ev["t"], a, out)
+    _judge_points(case, ev, ev["snap_before"], ev["snap_after"], ev["t"], a, out)
     if out:
         where, what = out[0]
         return (f"{k}:{where}:not the rigid motion:{ac}", f"{k} sub-seed {case['sub']} t={case['t']} a={a!r}: {where}: {what}")
+    if "reach_after" in ev:
+        r = _judge_reach(case, ev, "reach_after", f"t={case['t']} a={a!r}")
+        if r:
+            return r
+    if "m2" in case:
+        # a second motion on the result: never raises, and the two together are the combined motion of the original
+        a2 = float(case["m2"]["a"])
+        if abs(a2) > TWO_PI:
+            return None
+        if "exc2" in ev:
+            return (f"{k}:second translate_rotate raises {ev['exc2']}:{_shape_of(case)}",
+                    f"{k} sub-seed {case['sub']}: translate_rotate({case['t']}, {a!r}) succeeds, translate_rotate("
+                    f"{case['m2']['t']}, {a2!r}) on the result raises {ev['exc2']}: {ev['exc2_msg']}")
+        tc, ac2 = combined_motion(case)
+        _judge_points(case, ev, ev["snap_before"], ev["snap_after2"], tc, ac2, out)
+        if out:
+            where, what = out[0]
+            return (f"{k}:{where}:two motions are not the combined motion:{ac}",
+                    f"{k} sub-seed {case['sub']} (t,a)={case['t']},{a!r} then (t2,a2)={case['m2']['t']},{a2!r}; against "
+                    f"the single motion t={tc} a={ac2!r}: {where}: {what}")
+        if "reach_after2" in ev:
+            return _judge_reach(case, ev, "reach_after2", f"(t,a)={case['t']},{a!r} then (t2,a2)={case['m2']['t']},{a2!r}")
+        return None
     # undoing the motion restores the original (mutable components and values alike)
     if k not in ("pts", "rottr") and not ev.get("nonsimple"):
         try:
@@ -453,13 +783,25 @@ CTOR = {"pts": "CPts", "rottr": "CRotTr", "shape": "CShape", "state": "CState", 
         "obstacle": "CObstacle", "scenario": "CScenario", "ppset": "CPPSet"}
 
 
-def coq_case(case, ev):
+def coq_case(case, ev, twice=False):
+    """the Coq term of a case: one motion (observation after it), or [CTwice] (observation after the second motion;
+    an exception of either step is OExc)"""
     a = float(case["a"])
     c, s = math.cos(angle_of(case)), math.sin(angle_of(case))
     scale = max([1.0] + [abs(float(x)) for x in ev["before_flat"]] + [abs(x) for x in case["t"]])
-    o = "OExc" if "exc" in ev else f"(OFlat {L.c_flat(ev['after_flat'])})"
-    return (f"{CTOR[case['kind']]} {qq(scale)} ({qq(case['t'][0])}, {qq(case['t'][1])}) {qq(a)} {qq(c)} {qq(s)} "
+    if not twice:
+        o = "OExc" if "exc" in ev else f"(OFlat {L.c_flat(ev['after_flat'])})"
+    else:
+        m2 = case["m2"]
+        scale = max([scale] + [abs(x) for x in m2["t"]])
+        o = "OExc" if ("exc" in ev or "exc2" in ev) else f"(OFlat {L.c_flat(ev['after2_flat'])})"
+    term = (f"{CTOR[case['kind']]} {qq(scale)} ({qq(case['t'][0])}, {qq(case['t'][1])}) {qq(a)} {qq(c)} {qq(s)} "
             f"{ev['term']} {o}")
+    if not twice:
+        return term
+    a2 = angle_of(m2)
+    return (f"CTwice ({term}) ({qq(m2['t'][0])}, {qq(m2['t'][1])}) {qq(float(m2['a']))} {qq(math.cos(a2))} "
+            f"{qq(math.sin(a2))}")
 
 
 IMPORTS = ("From Coq Require Import QArith ZArith List Bool NArith.\nImport ListNotations.\n"
@@ -484,11 +826,12 @@ def run(ctx):
     terms, used = [], []
     trig_bad = 0
     excluded = [0]
+    reach = [0, 0]
 
     def process(cs, with_corr=True):
         nonlocal trig_bad
         for c in cs:
-            ctx.count(c, nontrivial(c), f"{c['kind']}|{L.angle_class(c['a'])}")
+            ctx.count(c, nontrivial(c), f"{c['kind']}|{L.angle_class(c['a'])}" + ("|+2nd motion" if "m2" in c else ""))
             ev = evaluate(c)
             r = judge(c, ev)
             if r:
@@ -496,26 +839,42 @@ def run(ctx):
             cc, ss = math.cos(angle_of(c)), math.sin(angle_of(c))
             if abs(cc * cc + ss * ss - 1.0) > 4 * 2.3e-16:
                 trig_bad += 1
+            for key in ("reach_after", "reach_after2"):
+                if key in ev:
+                    reach[0] += sum(1 for _, robust in ev["reach_before"] if robust)
+                    reach[1] += sum(1 for _, robust in ev["reach_before"] if not robust)
+            if "m2" in c:
+                a2 = angle_of(c["m2"])
+                c2, s2 = math.cos(a2), math.sin(a2)
+                if abs(c2 * c2 + s2 * s2 - 1.0) > 4 * 2.3e-16:
+                    trig_bad += 1
             if ev.get("nonsimple"):
                 excluded[0] += 1
             elif with_corr:
                 terms.append(coq_case(c, ev))
-                used.append((c, ev))
+                used.append((c, ev, "one motion"))
+                if "m2" in c:
+                    terms.append(coq_case(c, ev, twice=True))
+                    used.append((c, ev, "two motions"))
 
     process(cases)
     defs = f"Definition tau : Q := {qq(TWO_PI)}.\nDefinition chk := check tau.\n"
     bad, errors = ctx.coq_bad_indices("corr", IMPORTS, defs, terms, "chk", shard=60)
     ctx.coverage["correspondence_cases"] = len(terms)
     ctx.coverage["excluded_nonsimple_polygon"] = excluded[0]
-    ctx.coverage["trig_hypothesis_checked"] = len(cases)
+    ctx.coverage["second_motion_cases"] = sum(1 for c in cases if "m2" in c)
+    ctx.coverage["is_reached_probes_judged"] = reach[0]
+    ctx.coverage["is_reached_near_boundary_excluded"] = reach[1]
+    ctx.coverage["trig_hypothesis_checked"] = len(cases) + sum(1 for c in cases if "m2" in c)
     ctx.coverage["trig_hypothesis_violated"] = trig_bad
     ctx.coverage["tolerance"] = "1e-9 * (max(1,|x|) + largest input magnitude); orientations modulo 2pi"
     for e in errors:
         ctx.corr_break("Corr.C05.check (coqc failed)", e)
     for i in bad:
-        c, ev = used[i]
-        ctx.corr_break("Corr.C05.check: Model/Transform.v + Shapes.v + Scene.v vs translate_rotate",
-                       dict(c, observed=ev.get("exc", "flat list of %d numbers" % len(ev.get("after_flat", [])))))
+        c, ev, which = used[i]
+        ctx.corr_break(f"Corr.C05.check ({which}): Model/Transform.v + Shapes.v + Scene.v vs translate_rotate",
+                       dict(c, observed=ev.get("exc", ev.get("exc2") if which == "two motions" else None)
+                            or "flat list of %d numbers" % len(ev.get("after_flat", []))))
     ctx.log(f"corr cases={len(terms)} disagree={len(bad)} coq_errors={len(errors)} trig_bad={trig_bad}")
     if trig_bad:
         ctx.corr_break("libm cos/sin: c*c+s*s = 1 within 4 ulp", {"count": trig_bad})
